@@ -62,10 +62,12 @@ impl<'a> SessionData<'a> {
             ReceivedPacket::PubRec(rec) => {
                 let queue_release = match self.outbound.ack_packet(rec.packet_id) {
                     true => {
-                        runtime.send_quota = runtime
-                            .send_quota
-                            .saturating_add(1)
-                            .min(runtime.max_send_quota);
+                        if rec.reason.code().failed() {
+                            runtime.send_quota = runtime
+                                .send_quota
+                                .saturating_add(1)
+                                .min(runtime.max_send_quota);
+                        }
                         debug!(
                             "Processed PUBREC packet_id={=u16} send_quota={=u16}",
                             rec.packet_id, runtime.send_quota
@@ -104,6 +106,10 @@ impl<'a> SessionData<'a> {
                     );
                     return Ok(false);
                 }
+                runtime.send_quota = runtime
+                    .send_quota
+                    .saturating_add(1)
+                    .min(runtime.max_send_quota);
                 debug!("Processed PUBCOMP packet_id={=u16}", comp.packet_id);
                 comp.reason.code().as_result()?;
             }
